@@ -35,7 +35,9 @@ def cfg : Cfg :=
     probeLenient := Gen.C03.runningProbe == "lenient"
     asDictSkipCatch := Gen.C03.asDictSkipCatch
     asDictSkipRule := Gen.C03.asDictSkipRule
-    parentRootGuard := Gen.C03.parentRootStop == "guard; return None" }
+    parentRootGuard := Gen.C03.parentRootStop == "guard; return None"
+    lazyBodies := Gen.C03.lazyBodies
+    existsStrictClauses := Gen.C03.existsStrictClauses }
 
 /-- the public names of psutil.Process and the as_dict attribute names, as extracted -/
 def publicMethods : List String := Gen.C03.publicMethods
@@ -48,5 +50,7 @@ def oneshotShape : String := Gen.C03.oneshotShape
 def tryScopes : List (String × List String) := Gen.C03.tryScopes
 /-- the statements of the lowest-PID stop of parent() ("guard; return None" | "return None" | the statements as text) -/
 def parentRootStop : String := Gen.C03.parentRootStop
+/-- the file-system probes memory_maps() makes on a mapping's path (expected: the one `(deleted)` suffix test) -/
+def mapsDeletedProbe : String := Gen.C03.mapsDeletedProbe
 
 end Psutil.C03
